@@ -74,6 +74,8 @@ var c11Faults = []fault{
 	{Target: "SendCheckpoint", Name: "state-of-other-block", Regime: "above"},
 	{Target: "SendCheckpoint", Name: "state-tweaked", Regime: "above"},
 	{Target: "SendCheckpoint", Name: "block-other-body", Regime: "above"},
+	// a chain that is valid relative to a made-up parent state of the victim's own tip
+	{Target: "SendCheckpoint", Name: "made-up-state-chain", Regime: "above", View: "madeup"},
 	// ---- victim-issued SendTransactions (after an outline with missing transactions)
 	{Target: "SendTransactions", Name: "wrong-transactions", Regime: "v2", Ban: "wrong-missing-transactions"},
 	{Target: "SendTransactions", Name: "empty", Regime: "v2", Ban: "wrong-missing-transactions"},
@@ -228,7 +230,7 @@ func genC11Cases(r *mon.Run) []c11Case {
 		}
 		// instant sync: bootstrap from a checkpoint retrieved from Byzantine and honest peers
 		for _, f := range c11Faults {
-			if f.Target != "SendCheckpoint" {
+			if f.Target != "SendCheckpoint" || f.View != "" {
 				continue
 			}
 			stream++
@@ -359,7 +361,7 @@ func buildScene(r *mon.Run, cc *c11Case) *scene {
 		for _, n := range t.Nodes {
 			if n.ChainValid && n != sc.hTip && !sc.hTip.State().SufficientlyHeavierThan(n.State()) && chainlab.CommonAncestor(n, sc.hTip) != n {
 				sc.hTip = p2plab.Heavier(t, sc.hTip, 1, prof, n)
-				if sc.bTip.ChainValid && f.View != "invalid" {
+				if sc.bTip.ChainValid && f.View != "invalid" && f.View != "madeup" {
 					sc.bTip = sc.hTip
 				}
 			}
@@ -444,6 +446,36 @@ func buildFault(sc *scene, prof chainlab.Profile) {
 	v2ok := sc.vTip.Height+1 >= t.Env.Net.HardforkV2.AllowHeight
 	if f.Regime == "v2" && !v2ok {
 		sc.skip = "victim tip below the allow height"
+		return
+	}
+	if f.View == "madeup" {
+		env := t.Env
+		base := sc.vTip
+		if base.Block.V2 == nil || base.Parent == nil || base.Height < env.Net.HardforkV2.RequireHeight {
+			sc.skip = "victim tip cannot serve as a checkpoint"
+			return
+		}
+		g := base.Parent.L.State
+		g.Attestations += 7
+		g.SiafundTaxRevenue = g.SiafundTaxRevenue.Add(types.Siacoins(777))
+		st, _ := consensus.ApplyBlock(g, base.Block, consensus.V1BlockSupplement{}, time.Time{})
+		miner := env.A(chainlab.Miner).Addr
+		cur := base
+		for i := 0; i < 400; i++ {
+			nb := env.SealBlock(st, cur.Block.Timestamp.Add(env.Net.BlockInterval), miner, nil, nil, true)
+			n := t.Attach(cur, nb, "valid-on-made-up-state", nil)
+			if !n.OrphanValid || n.Valid {
+				sc.skip = "made-up-state successor not labelled as expected: " + n.Err
+				return
+			}
+			st, _ = consensus.ApplyBlock(st, nb, consensus.V1BlockSupplement{}, time.Time{})
+			cur = n
+			if i >= 2 && cur.State().SufficientlyHeavierThan(sc.vTip.State()) && rng.IntN(3) == 0 {
+				break
+			}
+		}
+		sc.override = map[types.BlockID]consensus.State{base.ID: g}
+		sc.bTip = cur
 		return
 	}
 	if f.View == "invalid" {
@@ -882,7 +914,7 @@ func installHooks(sc *scene, b *p2plab.Byz) {
 				}
 				r.Block = sb
 				return p2plab.Reply{Obj: r, Faulted: true}
-			case "state-for-unvalidated-block":
+			case "state-for-unvalidated-block", "made-up-state-chain":
 				// honest from the attacker's point of view: the block commits to
 				// the made-up (header-derived) state
 				if st, ok := sc.override[r.Index.ID]; ok {
